@@ -145,7 +145,9 @@ pub enum Expr {
     SelfE,
     CapSelf,
     Assign(Box<Target>, Box<Expr>, Ln),
-    Compound(Box<Target>, BinOp, Box<Expr>, Ln),
+    /// target, operator, value, line of the result (end of the value), line of the operator (where
+    /// the current value is read)
+    Compound(Box<Target>, BinOp, Box<Expr>, Ln, Ln),
     Unary(UnOp, Box<Expr>, Ln),
     Binary(BinOp, Box<Expr>, Box<Expr>, Ln),
     And(Box<Expr>, Box<Expr>),
@@ -214,7 +216,7 @@ impl Expr {
         Expr::Assign(Box::new(t), Box::new(v), ln())
     }
     pub fn compound(t: Target, op: BinOp, v: Expr) -> Expr {
-        Expr::Compound(Box::new(t), op, Box::new(v), ln())
+        Expr::Compound(Box::new(t), op, Box::new(v), ln(), ln())
     }
     pub fn paren(e: Expr) -> Expr {
         Expr::Paren(Box::new(e))
